@@ -129,6 +129,11 @@ PLANS["C18"] = dict(kind="func", stages=[aws_stage([SMALL_Q, GRID_Q], [SMALL_T, 
                          "any terminate call fails, create fails} x failure counter 0 / 2, run through the real provider; non-trivial: a case in which some step failed",
                     required_facts=["fleet-never-ready", "fleet-attach-failed", "fleet-terminate-failed", "fleet-terminate-several-batches", "fleet-exit-after-3", "fleet-success"],
                     assumptions=AWS_ASSUMPTIONS)
+PLANS["C18"]["also_ctl"] = ctl([], [], [D("up", n=6, steps=45, procs=6, fleet=True, faults=45, groups=2, dry=0)],
+                               [D("up", n=20, steps=60, procs=12, fleet=True, faults=45, groups=2, dry=0)],
+                               "see provider level", ["C18:ctl-fleet-accepted", "C18:ctl-fleet-failed-no-lock"])
+PLANS["C18"]["also_ctl"]["sim"] = {}
+PLANS["C18"]["assumptions"] = AWS_ASSUMPTIONS + COMMON_ASSUMPTIONS
 PLANS["C19"] = dict(kind="func", stages=[aws_stage([GRID_Q], [GRID_T], max_q=1500)],
                     rule="provider level: every (min, desired, instance list, node list with members / foreign nodes at every position, failing terminate) of the grid run through the real "
                          "NodeGroup.DeleteNodes; controller level: order of cloud and Node deletes along histories and model states",
